@@ -707,15 +707,18 @@ SSVectorBase<R>& SSVectorBase<R>::assign2productShort(const SVSetBase<S>& A,
          for(int j = 0; j < Aisize; ++j)
          {
             const Nonzero<S>& elt = Ai.element(j);
-            idx[nonzero_idx] = elt.idx;
             R oldval  = VectorBase<R>::val[elt.idx];
 
             // An old value of exactly 0 means the position is still unused.
             // It will be used now (either by a new nonzero or by a SOPLEX_VECTOR_MARKER),
-            // so increase the counter. If oldval != 0, we just
-            // change an existing NZ-element, so don't increase the counter.
+            // so record the index and increase the counter. If oldval != 0, we just
+            // change an existing NZ-element, so don't touch the index array (when all
+            // positions are in use already, idx[nonzero_idx] is one past its end).
             if(oldval == 0)
+            {
+               idx[nonzero_idx] = elt.idx;
                ++nonzero_idx;
+            }
             else if(oldval == R(SOPLEX_VECTOR_MARKER))
                oldval = 0;   // the marker stands for an exact zero (matters in exact arithmetic)
 
